@@ -26,8 +26,23 @@ def digest (c : Chan) : String :=
   s!"cc={c.cpCommit} cr={c.cpRevoke} cpt={optNat c.curPt} ppt={optNat c.prevPt} " ++
   s!"ci={optNat c.curInfo} pi={optNat c.prevInfo} st={store}"
 
+def bits? (s : String) : Option (List Bool) :=
+  s.toList.mapM (fun ch => if ch = '1' then some true else if ch = '0' then some false else none)
+
+/-- the signature fact of a validate request: either the digest `1|0|2|3` (corpus lines, replays of earlier rounds)
+    or the RAW per-signature facts `r<commitOk>:<nHtlc>:<bit per supplied HTLC signature>:<payOk>`, from which the
+    model computes the fact itself (`Enforcement.sigFactOf` = the loop of `check_holder_tx_signatures`) -/
 def sig? : String → Option SigFact
-  | "1" => some .valid | "0" => some .invalid | "2" => some .oob | "3" => some .validUnpaid | _ => none
+  | "1" => some .valid | "0" => some .invalid | "2" => some .oob | "3" => some .validUnpaid
+  | s =>
+    match s.splitOn ":" with
+    | [c, n, b, p] => do
+      let c ← (match c with | "r1" => some true | "r0" => some false | _ => none)
+      let n ← nat? n
+      let b ← bits? b
+      let p ← (match p with | "1" => some true | "0" => some false | _ => none)
+      pure (sigFactOf c n b p)
+    | _ => none
 
 def bool? : String → Option Bool
   | "1" => some true | "0" => some false | _ => none
